@@ -9,6 +9,7 @@ Driver of the `pool` family (stateful).  Lines:
   drop <a>                    release the handle a                  -> ok [<calls>]
   destroy <p>                 delete the pool p                     -> ok [<calls, sorted>]
   fail_next <k>               the next k allocator calls throw      -> ok
+  fail_kind <error|bad_alloc|runtime>  what they throw: primitiv::Error, std::bad_alloc, std::runtime_error -> ok
   reuse <0|1>                 the allocator hands deleted addresses out again, or never  -> ok
   shifts <x>                  numeric_utils::calculate_shifts(x)    -> ok <n>
   reset                       drop every handle, delete every pool  -> ok [<calls, sorted>]
@@ -147,6 +148,8 @@ def step (s : DState) (line : String) : DState × String :=
     match parseU64 k with
     | some n => ({ s with fail := n }, "ok")
     | none => (s, "bad-op")
+  -- the type of the exception the failing allocator throws: the pool's reaction (`catch (...)`) does not depend on it
+  | ["fail_kind", k] => if k == "error" || k == "bad_alloc" || k == "runtime" then (s, "ok") else (s, "bad-op")
   | ["reuse", "0"] => ({ s with reuse := false }, "ok")
   | ["reuse", "1"] => ({ s with reuse := true }, "ok")
   | ["shifts", x] =>
